@@ -2,7 +2,7 @@
    Print Assumptions.  [reachable c s]: s is reached from the empty queue by ANY finite sequence of atomic
    sections (labels) of any number of producers, consumers, completions, cancellations and a shutdown —
    i.e. every interleaving; sizes are arbitrary integers (in-memory) / arbitrary non-negative (persistent). *)
-From Verif Require Import Common.Base C02.Model C02.Proofs C02.Proofs2 C02.Proofs3 C02.Proofs4 C02.Proofs5 C02.Proofs6 C02.Proofs7 C02.Proofs8 C02.Obligations Generated.C02Queue.
+From Verif Require Import Common.Base C02.Model C02.Proofs C02.Proofs2 C02.Proofs3 C02.Proofs4 C02.Proofs5 C02.Proofs6 C02.Proofs7 C02.Proofs8 C02.Obligations Generated.C02Queue C02.PropCheck C02.PropCheckProofs.
 Local Open Scope Z_scope.
 
 (* --- reported size -------------------------------------------------------------------------------------- *)
@@ -29,8 +29,9 @@ Theorem offer_refused_iff : forall c s p sz s' z,
   ((z = c_full \/ z = c_toolarge \/ z = c_blocked) <-> size s + sz > cap c) /\
   ((z = c_enq \/ z = c_await) <-> size s + sz <= cap c) /\
   (z = c_full -> blocking c = false) /\
-  (z = c_blocked -> blocking c = true /\ (kind c = Mem -> sz <= cap c)) /\
-  (z = c_toolarge -> kind c = Mem /\ sz > cap c) /\
+  (z = c_blocked -> blocking c = true /\ sz <= cap c) /\
+  (z = c_toolarge -> sz > cap c /\ (kind c = Mem \/ blocking c = true)) /\
+  (sz > cap c -> kind c = Mem \/ blocking c = true -> z = c_toolarge) /\
   (z = c_await <-> (size s + sz <= cap c /\ wfr_eff c = true)) /\
   ((z = c_enq \/ z = c_await) ->
      acc s' = acc s ++ [p] /\ items s' = items s ++ [(p, sz)] /\ size s' = size s + sz) /\
@@ -133,7 +134,7 @@ Proof. exact no_lost_wakeup_refuted_l. Qed.
    deadlock (the mutex is free), a quiescent state has NO producer left inside Offer: nobody stays blocked —
    with or without space, cancelled (they returned the context error) or not, waiting for a result or not. *)
 Theorem no_lost_wakeup_partial : forall c s,
-  0 <= cap c -> reachable_fit c s -> quiescent c s -> lock s = Free -> all_returned s.
+  0 <= cap c -> reachable c s -> quiescent c s -> lock s = Free -> all_returned s.
 Proof. exact no_lost_wakeup_partial_l. Qed.
 
 (* ... and every quiescent state whose mutex is not free has exactly the F3 shape: a blocked Signal, a full
@@ -144,13 +145,28 @@ Theorem deadlock_shape : forall c s,
   cnt is_leftctx (prods s) = waiting s + 2 /\ 0 <= waiting s.
 Proof. exact deadlock_shape_l. Qed.
 
-(* S1: without the size restriction the statement fails even with the mutex free: a persistent queue parks an
-   oversized request for ever on an empty queue (the in-memory queue refuses it, offer_refused_iff) *)
-Theorem blocked_on_empty_queue_refuted :
-  exists c s, kind c = Pers /\ 0 < cap c /\ reachable c s /\ quiescent c s /\ lock s = Free /\
-    size s = 0 /\ items s = [] /\ inflight s = [] /\ acc s = [] /\
-    pget 0%nat (prods s) = Some (PInSelect 2) /\ ~ In 0%nat (cancelled s) /\ ~ all_returned s.
-Proof. exact blocked_on_empty_queue_refuted_l. Qed.
+(* S1 REPAIRED (fix f7a3004ea; formerly blocked_on_empty_queue_refuted): with block_on_overflow the persistent queue
+   refuses a request larger than the capacity (errSizeTooLarge) before anything else — faulty or not — and changes
+   nothing; no_lost_wakeup_partial above therefore needs no size side condition any more.  The former S1 histories,
+   replayed, end quiescent with everybody returned (regression witnesses). *)
+Theorem oversized_offer_refused : forall c s p sz s' z,
+  kind c = Pers -> blocking c = true -> sz > cap c ->
+  (step c s (LOffer p sz) = Some (s', z) \/ exists k, step c s (LOfferF p sz k) = Some (s', z)) ->
+  z = c_toolarge /\ s' = setp p (PRet RTooLarge) s.
+Proof. exact oversized_offer_refused_l. Qed.
+
+Theorem oversized_offer_refused_witness :
+  let s := final s1_cfg [LOffer 0 2] in
+  run s1_cfg init [LOffer 0 2] = Some s /\ quiescent s1_cfg s /\ all_returned s /\
+  pget 0%nat (prods s) = Some (PRet RTooLarge) /\ waiting s = 0 /\ size s = 0 /\ acc s = [].
+Proof. exact oversized_offer_refused_witness_l. Qed.
+
+Theorem oversized_no_longer_steals_witness :
+  let s := final s1b_cfg s1b_trace in
+  run s1b_cfg init s1b_trace = Some s /\ quiescent s1b_cfg s /\ lock s = Free /\ all_returned s /\
+  pget 2%nat (prods s) = Some (PRet RTooLarge) /\ pget 1%nat (prods s) = Some (PRet ROk) /\
+  hand s = [0; 1]%nat /\ size s = 0 /\ waiting s = 0 /\ tok s = false.
+Proof. exact oversized_no_longer_steals_witness_l. Qed.
 
 (* released when space: safety form.  (1) in every reachable S1-free state, producers still counted in
    `waiting` never sit on an empty queue unless a wake-up is on its way (token in the channel or a woken
@@ -158,7 +174,7 @@ Proof. exact blocked_on_empty_queue_refuted_l. Qed.
    lets any producer inside the select proceed to its re-check (relock_admitted_iff says what it decides).
    The fairness-based liveness corollary is not proved (NOTES.md). *)
 Theorem released_when_space_partial : forall c s,
-  0 <= cap c -> reachable_fit c s ->
+  0 <= cap c -> reachable c s ->
   (0 < waiting s -> 0 < size s \/ tok s = true \/ 0 < cnt is_lefttok (prods s)) /\
   (forall id e s' z, step c s (LDone id e) = Some (s', z) -> 0 < waiting s ->
      tok s' = true /\ waiting s' = waiting s - 1) /\
@@ -193,10 +209,9 @@ Proof. exact (fun c s p Hc R => reach_awaitinv c s Hc R p). Qed.
 (* THE IFF.  In a quiescent reachable state somebody is still inside Offer exactly when the state has the F3 shape
    or the S1 shape (Model.f3_shape / s1_shape); the S1 shape needs an oversized Offer to a persistent queue somewhere
    in the history; the F3 shape always contains a cancelled producer that never gets its context error. *)
-Theorem no_lost_wakeup_iff : forall c ls s,
-  0 <= cap c -> Forall (wf_label c) ls -> run c init ls = Some s -> quiescent c s ->
-  (stuck s <-> f3_shape s \/ s1_shape s) /\
-  (s1_shape s -> Exists (fun l => ~ fit_label c l) ls) /\
+Theorem no_lost_wakeup_iff : forall c s,
+  0 <= cap c -> reachable c s -> quiescent c s ->
+  (stuck s <-> f3_shape s) /\ ~ s1_shape s /\
   (f3_shape s -> exists p sz, pget p (prods s) = Some (PLeftCtx sz) /\ In p (cancelled s)).
 Proof. exact no_lost_wakeup_iff_l. Qed.
 
@@ -217,7 +232,7 @@ Qed.
    by (a)), it is the F3 deadlock, or everybody has returned, the queue has drained and every producer that was
    parked in s with a live context has been admitted, handed to a consumer and finished. *)
 Theorem released_when_space : forall c s ls s',
-  0 <= cap c -> reachable_fit c s -> stopped s = false ->
+  0 <= cap c -> reachable c s -> stopped s = false ->
   internal_run ls -> run c s ls = Some s' ->
   Z.of_nat (length ls) <= mu s /\
   (quiescent c s' ->
@@ -226,13 +241,14 @@ Theorem released_when_space : forall c s ls s',
       forall p sz, blocking c = true ->
         pget p (prods s) = Some (PInSelect sz) \/ pget p (prods s) = Some (PLeftTok sz) ->
         ~ In p (cancelled s) ->
-        In p (acc s') /\ In p (hand s') /\ In p (map fst (fin s')))).
+        (find_id p (faulty s) = None -> In p (acc s') /\ In p (hand s') /\ In p (map fst (fin s'))) /\
+        (forall k, find_id p (faulty s) = Some k -> exists k', pget p (prods s') = Some (PRet (RErr k'))))).
 Proof. exact released_when_space_l. Qed.
 
 (* PROGRESS (constructive): while somebody is inside Offer and the mutex is free, an internal label is enabled and
    leads strictly closer (so a weakly fair run cannot stop before quiescence). *)
 Theorem progress_while_stuck : forall c s,
-  0 <= cap c -> reachable_fit c s -> stopped s = false -> lock s = Free -> stuck s ->
+  0 <= cap c -> reachable c s -> stopped s = false -> lock s = Free -> stuck s ->
   exists l s' z, internal l = true /\ step c s l = Some (s', z) /\ mu s' < mu s.
 Proof. exact progress_l. Qed.
 
@@ -299,32 +315,53 @@ Proof. exact pq_resync_on_empty_l. Qed.
    this covers the persistent queue's remaining refusal causes: Encoding.Marshal fails or the storage write fails
    (label LOfferF, from ANY state).  The capacity loop runs first (full => ErrQueueIsFull as usual); past it the
    error is returned and size, queue contents, histories, the cond's state, parked consumers and the pool are
-   untouched — only the producer's own result is recorded.  With block_on_overflow a faulty request that does not
-   fit parks like any other (and later steals a wake-up: faulty_waiter_steals_wakeup_refuted). *)
+   untouched — only the producer's own result is recorded, and (since fix 03fbf1134) hasMoreSpace is signalled:
+   a no-op when nobody is counted, otherwise one waiter is woken although no space was freed (it re-checks and
+   parks again).  With block_on_overflow a faulty request that does not fit parks like any other. *)
 Theorem faulty_offer_changes_nothing : forall c s p sz k s' z,
-  step c s (LOfferF p sz k) = Some (s', z) ->
+  step c s (LOfferF p sz k) = Some (s', z) -> (blocking c = true -> sz <= cap c) ->
   kind c = Pers /\ lock s = Free /\
-  (size s + sz <= cap c -> z = k /\ s' = setp p (PRet (RErr k)) s) /\
+  (size s + sz <= cap c ->
+     z = k /\ s' = signal PendNone (setp p (PRet (RErr k)) s) /\
+     (waiting s = 0 -> s' = setp p (PRet (RErr k)) s) /\
+     (0 < waiting s -> waiting s' = waiting s - 1 /\ tok s' = true)) /\
   (size s + sz > cap c -> blocking c = false -> z = c_full /\ s' = setp p (PRet RFull) s) /\
   (size s + sz > cap c -> blocking c = true ->
      z = c_blocked /\ pget p (prods s') = Some (PInSelect sz) /\ waiting s' = waiting s + 1 /\
      faulty s' = faulty s ++ [(p, k)]) /\
   size s' = size s /\ items s' = items s /\ inflight s' = inflight s /\ acc s' = acc s /\ hand s' = hand s /\
-  tok s' = tok s /\ cons s' = cons s /\ held s' = held s /\ pool s' = pool s.
+  cons s' = cons s /\ held s' = held s /\ pool s' = pool s.
 Proof. exact faulty_offer_changes_nothing_l. Qed.
 
-(* FINDING C02-FAULTY-WAITER-STEALS-WAKEUP (persistent queue, block_on_overflow, enqueue-path faults; confirmed on the
-   implementation by the harness scenario vFaultyWaiter): every request offered fits the capacity, two parked
-   producers whose request cannot be stored swallow the two Signals of the draining queue and return their errors
-   without passing the wake-up on; producer 3, whose request fits, stays parked for ever on an empty idle queue. *)
-Theorem faulty_waiter_steals_wakeup_refuted :
-  exists c s, kind c = Pers /\ blocking c = true /\ run c init fw_trace = Some s /\
-    Forall (fit_label c) fw_trace /\
-    quiescent c s /\ lock s = Free /\ size s = 0 /\ items s = [] /\ inflight s = [] /\ tok s = false /\
-    waiting s = 1 /\ hand s = [0%nat] /\ fin s = [(0%nat, 0)] /\
+(* REPAIRED finding C02-FAULTY-WAITER-STEALS-WAKEUP (fix 03fbf1134).  A parked producer whose request cannot be stored
+   (Marshal / storage-write error), once woken and past the capacity loop, returns its error, changes nothing and
+   PASSES THE WAKE-UP ON: if anybody is still counted a token is issued for them; a Signal with nobody counted is a
+   no-op.  Faulty offers (LOfferF) are now part of [reachable] / [reachable_fit], so no_lost_wakeup_partial,
+   no_lost_wakeup_iff, released_when_space and progress_while_stuck hold on runs with faulty offers too (in
+   released_when_space a parked producer of that kind ends with its error, every other parked live producer is
+   admitted).  The former refutation witness, replayed, now ends quiescent with everybody returned. *)
+Theorem faulty_waiter_passes_wakeup : forall c s p sz k s' z,
+  pget p (prods s) = Some (PLeftTok sz) -> find_id p (faulty s) = Some k -> size s + sz <= cap c ->
+  step c s (LRelockTok p) = Some (s', z) ->
+  z = k /\ s' = signal PendNone (setp p (PRet (RErr k)) s) /\
+  pget p (prods s') = Some (PRet (RErr k)) /\
+  size s' = size s /\ items s' = items s /\ acc s' = acc s /\
+  (waiting s = 0 -> waiting s' = 0 /\ tok s' = tok s /\ lock s' = Free) /\
+  (0 < waiting s -> waiting s' = waiting s - 1 /\ tok s' = true).
+Proof. exact faulty_waiter_passes_wakeup_l. Qed.
+
+Theorem faulty_waiter_passes_wakeup_witness :
+  exists s, run fw_cfg init fw_trace = Some s /\ reachable_fit fw_cfg s /\
+    quiescent fw_cfg s /\ lock s = Free /\ all_returned s /\ size s = 0 /\ tok s = false /\ waiting s = 0 /\
+    acc s = [0; 3]%nat /\ hand s = [0; 3]%nat /\
     pget 1%nat (prods s) = Some (PRet (RErr c_marshal)) /\ pget 2%nat (prods s) = Some (PRet (RErr c_storeerr)) /\
-    pget 3%nat (prods s) = Some (PInSelect 1) /\ 1 <= cap c /\ ~ In 3%nat (cancelled s) /\ ~ all_returned s.
-Proof. exact faulty_waiter_steals_wakeup_refuted_l. Qed.
+    pget 3%nat (prods s) = Some (PRet ROk).
+Proof. exact faulty_waiter_passes_wakeup_witness_l. Qed.
+
+(* a producer whose request cannot be stored is never accepted (hence never handed over) *)
+Theorem faulty_request_never_accepted : forall c s p k,
+  0 <= cap c -> reachable c s -> find_id p (faulty s) = Some k -> ~ In p (acc s) /\ pget p (prods s) <> None.
+Proof. exact (fun c s p k Hc R => reach_faultyinv c s Hc R p k). Qed.
 
 (* --- obligations against translator T1 (coq/Generated/C02Queue.v, regenerated from the current source) ---------- *)
 Theorem capacity_is_configured : forall c,
@@ -348,6 +385,14 @@ Theorem done_and_list_api_is_modelled :
   ms_blockingDone = api_done /\ ms_indexDone = api_done /\ ms_linkedQueue = api_linked_queue.
 Proof. exact done_and_list_api_is_modelled_l. Qed.
 
+(* THE FAILING-INPUT SEARCH IS SOUND: the boolean checker that the check driver evaluates over the OBSERVED history of
+   every case (PropCheck.prop_ok; model-independent) holds exactly when the Prop-level clauses hold of that history:
+   reported size within 0..capacity at every observation, zero whenever nothing accepted is unfinished, equal to the
+   summed size of accepted-but-unfinished requests (in-memory queue), hand-off without repetition, never of a refused
+   id, in acceptance order with unreadable requests skipped. *)
+Theorem prop_ok_sound : forall cs, prop_ok cs = true <-> Clauses cs.
+Proof. exact prop_ok_sound_l. Qed.
+
 Print Assumptions mq_size_exact.
 Print Assumptions pq_size_bounds.
 Print Assumptions offer_refused_iff.
@@ -362,7 +407,9 @@ Print Assumptions no_lost_wakeup_refuted.
 Print Assumptions no_lost_wakeup_refuted_witness.
 Print Assumptions no_lost_wakeup_partial.
 Print Assumptions deadlock_shape.
-Print Assumptions blocked_on_empty_queue_refuted.
+Print Assumptions oversized_offer_refused.
+Print Assumptions oversized_offer_refused_witness.
+Print Assumptions oversized_no_longer_steals_witness.
 Print Assumptions released_when_space_partial.
 Print Assumptions wait_for_result_own_outcome.
 Print Assumptions awaiting_producer_is_tracked.
@@ -376,7 +423,9 @@ Print Assumptions broadcast_step.
 Print Assumptions consumer_no_lost_wakeup.
 Print Assumptions pq_resync_on_empty.
 Print Assumptions faulty_offer_changes_nothing.
-Print Assumptions faulty_waiter_steals_wakeup_refuted.
+Print Assumptions faulty_waiter_passes_wakeup.
+Print Assumptions faulty_waiter_passes_wakeup_witness.
+Print Assumptions faulty_request_never_accepted.
 Print Assumptions capacity_is_configured.
 Print Assumptions has_elements_is_nonempty.
 Print Assumptions cond_api_is_modelled.
@@ -384,3 +433,4 @@ Print Assumptions memory_queue_api_is_modelled.
 Print Assumptions persistent_queue_api_is_modelled.
 Print Assumptions async_queue_api_is_modelled.
 Print Assumptions done_and_list_api_is_modelled.
+Print Assumptions prop_ok_sound.
